@@ -18,6 +18,8 @@ ASSUMPTIONS = [
 ]
 OUTSIDE = ["chart keys the SM chart cannot hold and the table does not list (MUSIC, NOTES2, unknown keys) and any chart key under COPY_ANYWAY: known findings probed separately",
            "more than 2 charts", "presence patterns other than all / none / each single SSC-only property"]
+# the documented default behaviour per property kind (the harness's own copy: the library's table is part of the code under test)
+DEFAULT_BEH = {"SSC_VERSION": "IGNORE", "METADATA": "IGNORE", "FILE_PATH": "IGNORE", "GAMEPLAY_EVENT": "ERROR_UNLESS_DEFAULT", "TIMING_DATA": "ERROR_UNLESS_DEFAULT"}
 BEH = ["COPY_ANYWAY", "IGNORE", "ERROR_UNLESS_DEFAULT", "ERROR", None]
 KINDS = ["SSC_VERSION", "METADATA", "FILE_PATH", "GAMEPLAY_EVENT", "TIMING_DATA"]
 # the field defaults (what a blank SSC file written by the editor contains for SSC-only fields; empty otherwise)
@@ -54,19 +56,56 @@ def _eqstr(symx, key, default, cond):
 
 
 class _LazyBehaviors(dict):
-    """mapping PropertyType -> behaviour whose entries are chosen (solver-guided case split) when first consulted"""
+    """mapping PropertyType -> behaviour whose entries are chosen (solver-guided case split) when first consulted; every
+    way of reading a mapping is covered (get / [] / in / iteration / keys / items / len / update-from)"""
 
-    def __init__(self, symx, C, fixed):
+    def __init__(self, symx, C, fixed, prefix="beh_"):
         super().__init__()
-        self.symx, self.C, self.fixed, self.chosen = symx, C, fixed, {}
+        self.symx, self.C, self.fixed, self.chosen, self.prefix = symx, C, fixed, {}, prefix
 
-    def get(self, kind, default=None):
+    def _name(self, kind):
         name = kind.name
         if name not in self.chosen:
-            i = self.fixed[name] if name in self.fixed else self.symx.choose("beh_" + name, len(BEH))
+            i = self.fixed[name] if name in self.fixed else self.symx.choose(self.prefix + name, len(BEH))
             self.chosen[name] = BEH[i]
-        b = self.chosen[name]
+        return self.chosen[name]
+
+    def get_name(self, kindname):
+        return self._name(self.C.PropertyType[kindname])
+
+    def get(self, kind, default=None):
+        b = self._name(kind)
         return default if b is None else self.C.InvalidPropertyBehavior[b]
+
+    def __getitem__(self, kind):
+        b = self._name(kind)
+        if b is None:
+            raise KeyError(kind)
+        return self.C.InvalidPropertyBehavior[b]
+
+    def __contains__(self, kind):
+        return self._name(kind) is not None
+
+    def keys(self):
+        return [k for k in self.C.PropertyType if self._name(k) is not None]
+
+    def __iter__(self):
+        return iter(self.keys())
+
+    def __len__(self):
+        return len(self.keys())
+
+    def items(self):
+        return [(k, self[k]) for k in self.keys()]
+
+    def values(self):
+        return [self[k] for k in self.keys()]
+
+    def copy(self):
+        return dict(self.items())
+
+    def __bool__(self):
+        return len(self) > 0
 
 
 def _tables(C, SM):
@@ -78,7 +117,7 @@ def _tables(C, SM):
 def _effective(chosen_name, kind, C):
     if chosen_name is not None:
         return chosen_name
-    return C.INVALID_PROPERTY_BEHAVIORS[C.PropertyType[kind]].name
+    return DEFAULT_BEH[kind]
 
 
 def ob_policy(pattern, which, fixed_first, fixed_tmpl=None, budget_s=300):
@@ -228,7 +267,56 @@ def ob_policy(pattern, which, fixed_first, fixed_tmpl=None, budget_s=300):
             return False, ("template shared",)
         return True, ("policy", pattern, which)
 
-    _LazyBehaviors.get_name = lambda self, kind: (self.get(mods["simfile.convert"].PropertyType[kind]), self.chosen[kind])[1]
+    return symx.explore(run, budget_s=budget_s)
+
+
+def ob_sequence(budget_s=200):
+    """histories: a conversion's outcome depends only on its own arguments - after an earlier call with any single
+    non-default behaviour (which may have raised), a call that leaves kinds unspecified uses the documented defaults"""
+    symx, mods = _setup()
+    C, SM, SSC = mods["simfile.convert"], mods["simfile.sm"], mods["simfile.ssc"]
+
+    def source():
+        src = SSC.SSCSimfile(string="")
+        src["VERSION"] = "0.83"; src["TITLE"] = "t"; src["ORIGIN"] = "o!"; src["JACKET"] = "j.png"; src["SPEEDS"] = "0.000=2.000=1.000=0"; src["BPMS"] = "0.000=120.000"
+        return src
+
+    def outcome(beh):
+        try:
+            out = C.ssc_to_sm(source(), invalid_property_behaviors=beh)
+            return ("ok", tuple(sorted(k for k in ("VERSION", "ORIGIN", "JACKET", "SPEEDS") if k in out)))
+        except C.InvalidPropertyException as e:
+            return ("invalid", str(e)[:40])
+
+    def expected(choice):
+        eff = {k: (choice.get(k) or DEFAULT_BEH[k]) for k in KINDS}
+        kept = []
+        for key, kind in (("VERSION", "SSC_VERSION"), ("ORIGIN", "METADATA"), ("JACKET", "FILE_PATH"), ("SPEEDS", "GAMEPLAY_EVENT")):
+            b = eff[kind]
+            if b == "COPY_ANYWAY":
+                kept.append(key)
+            elif b == "IGNORE":
+                continue
+            else:  # all four values are non-default
+                return ("invalid", key)
+        return ("ok", tuple(sorted(kept)))
+
+    def run():
+        # earlier call: one kind set to one behaviour
+        k0 = KINDS[symx.choose("k0", len(KINDS))]; b0 = BEH[symx.choose("b0", 4)]
+        outcome({C.PropertyType[k0]: C.InvalidPropertyBehavior[b0]})
+        # later call: a mapping that specifies at most one (other) kind
+        k1 = symx.choose("k1", len(KINDS) + 1)
+        choice = {}
+        if k1 < len(KINDS):
+            choice[KINDS[k1]] = BEH[symx.choose("b1", 4)]
+        got = outcome({C.PropertyType[k]: C.InvalidPropertyBehavior[b] for k, b in choice.items()})
+        exp = expected(choice)
+        if got[0] != exp[0]:
+            return False, ("second call", got, exp, "after", k0, b0)
+        if got[0] == "ok":
+            return got[1] == exp[1], ("second call keys", got[1], exp[1], "after", k0, b0)
+        return repr(exp[1]) in got[1], ("second call names", got[1], exp[1])
     return symx.explore(run, budget_s=budget_s)
 
 
@@ -296,6 +384,7 @@ def obligations(tier):
     obs.append(dict(name="policy[none present]", func="ob_policy", args=("none", 0, None), budget_s=b, bounds="no SSC-only property besides VERSION/WARPS"))
     for w in (range(nsim + ncht) if tier != "quick" else list(range(0, nsim + ncht, 3))):
         obs.append(dict(name=f"policy[only SSC-only property #{w} present]", func="ob_policy", args=("one", w, None), budget_s=b, bounds="exactly one SSC-only property present (index into the regenerated tables)"))
+    obs.append(dict(name="sequence of two conversions", func="ob_sequence", args=(), budget_s=b, bounds="earlier call with one (kind, behaviour) pair out of 5x4, later call with at most one specified kind"))
     obs.append(dict(name="roundtrip sm->ssc->sm", func="ob_roundtrip", args=(), budget_s=b, bounds="blank/empty SM base, STOPS empty/non-empty, ANIMATIONS alias, 0..2 charts, template on/off"))
     for i in range(len(KNOWN)):
         obs.append(dict(name=f"known[{KNOWN[i][0]}]", func="ob_known", args=(i,), budget_s=60, bounds="dedicated probe of a known finding"))
@@ -325,6 +414,26 @@ def replay(data):
         except Exception as e:
             return True, f"ssc_to_sm with chart key {k} raises bare {type(e).__name__}"
         return False, "converted"
+    if data["func"] == "ob_sequence":
+        m = data["model"] or {}
+        gi = lambda k: int(Fraction(m.get(k, "0")))
+        def source():
+            src = SSCSimfile(string="")
+            src["VERSION"] = "0.83"; src["TITLE"] = "t"; src["ORIGIN"] = "o!"; src["JACKET"] = "j.png"; src["SPEEDS"] = "0.000=2.000=1.000=0"; src["BPMS"] = "0.000=120.000"
+            return src
+        def outcome(beh):
+            try:
+                out = C.ssc_to_sm(source(), invalid_property_behaviors=beh)
+                return ("ok", tuple(sorted(k for k in ("VERSION", "ORIGIN", "JACKET", "SPEEDS") if k in out)))
+            except C.InvalidPropertyException as e:
+                return ("invalid", str(e)[:40])
+        choice = {}
+        if gi("k1") < len(KINDS):
+            choice = {C.PropertyType[KINDS[gi("k1")]]: C.InvalidPropertyBehavior[BEH[gi("b1")]]}
+        fresh = subprocess_outcome(choice)
+        outcome({C.PropertyType[KINDS[gi("k0")]]: C.InvalidPropertyBehavior[BEH[gi("b0")]]})
+        got = outcome(choice)
+        return got != fresh, f"after a call with {KINDS[gi('k0')]}={BEH[gi('b0')]}, ssc_to_sm(behaviours={ {k.name: v.name for k, v in choice.items()} }) gives {got}; in a fresh interpreter it gives {fresh}"
     if data["func"] == "ob_roundtrip":
         m = data["model"] or {}
         gi = lambda k: int(Fraction(m.get(k, "0")))
@@ -387,7 +496,7 @@ def replay(data):
         ct = SMChart.from_msd(["tt", "td", "tf", "tm", "tr", "tn"])
     elif tm == 2:
         st = SMSimfile(string="")
-    eff = lambda kind: (beh.get(C.PropertyType[kind]) or C.INVALID_PROPERTY_BEHAVIORS[C.PropertyType[kind]]).name
+    eff = lambda kind: beh[C.PropertyType[kind]].name if C.PropertyType[kind] in beh else DEFAULT_BEH[kind]
 
     def scan(items, table):
         for k, v in items:
@@ -439,6 +548,29 @@ def replay(data):
             if [out.charts[off + n][f] for f in SIX] != [ch[f] for f in SIX]:
                 return True, f"chart {n} fields differ"
     return False, "conforms"
+
+
+def subprocess_outcome(choice):
+    """the same later call made first thing in a fresh interpreter (no earlier call)"""
+    import subprocess, sys, json, os
+    code = (
+        "import warnings; warnings.filterwarnings('ignore')\n"
+        "import json, sys\n"
+        "from simfile import convert as C\nfrom simfile.ssc import SSCSimfile\n"
+        "src = SSCSimfile(string='')\n"
+        "src['VERSION']='0.83'; src['TITLE']='t'; src['ORIGIN']='o!'; src['JACKET']='j.png'; src['SPEEDS']='0.000=2.000=1.000=0'; src['BPMS']='0.000=120.000'\n"
+        "beh = {C.PropertyType[k]: C.InvalidPropertyBehavior[v] for k, v in json.loads(sys.argv[1]).items()}\n"
+        "try:\n"
+        "    out = C.ssc_to_sm(src, invalid_property_behaviors=beh)\n"
+        "    print(json.dumps(['ok', sorted(k for k in ('VERSION','ORIGIN','JACKET','SPEEDS') if k in out)]))\n"
+        "except C.InvalidPropertyException as e:\n"
+        "    print(json.dumps(['invalid', str(e)[:40]]))\n")
+    env = dict(os.environ)
+    if os.environ.get("VERIF_REPO"):
+        env["PYTHONPATH"] = os.environ["VERIF_REPO"]
+    r = subprocess.run([sys.executable, "-c", code, json.dumps({k.name: v.name for k, v in choice.items()})], capture_output=True, text=True, env=env)
+    o = json.loads(r.stdout.strip().splitlines()[-1])
+    return (o[0], tuple(o[1]) if o[0] == "ok" else o[1])
 
 
 def main(tier):
